@@ -138,6 +138,23 @@ CHECKS.update({
     ),
 })
 
+CHECKS.update({
+    "C16": (
+        "differential property-based testing: shared-memory owner + attached views vs an in-memory twin under generated operation sequences and deletion orders",
+        "Generated shapes with unaligned byte sizes; every step is routed to the owner or a view and mirrored on a twin; all handles must agree "
+        "with the twin on state and on queries asked through every handle; /dev/shm is inspected after dropping views and the owner (both orders).",
+        "sleep() in __del__ is a no-op except in a fixed number of real-sleep cases; only segments created by the case are ever removed.",
+        "7/C16",
+    ),
+    "C20": (
+        "fault enumeration: every prefix length of every generated saved file is loaded through every loader",
+        "Crash points of save() are the strict prefixes of the written file; all of them are enumerated for each class, several shapes and "
+        "loaders; every one must raise, and the complete file must load to the saved sketch.",
+        "Assumes a crash leaves a prefix of the final file; crafted table contents embedding a foreign archive are out of scope.",
+        "7/C20",
+    ),
+})
+
 NOT_YET = {}
 
 
